@@ -47,6 +47,15 @@ def run(ctx: Ctx) -> None:
     n6 = S.link_current_test(ctx, v, "C16.R6")
     rep.floor("C16.R6", n6, 0)
     decode_set_store_local(ctx, v)
+    if rep.prop == "C16":
+        from . import c12 as _c12
+        rep.rule("C16.R13", "as C12.R1-R4: a store configured with cache_objects (True / n / negative / False / 0, as documented) round-trips like the bare store: the decoder of the option builds the wrapper it documents, and the wrapper answers like the wrapped store for every kind of value")
+        before_ = len(rep.obligations)
+        _c12.run(ctx)
+        for o_ in rep.obligations[before_:]:
+            o_.rule = "C16.R13/" + o_.rule
+        for k_ in [k_ for k_ in rep.floors if k_.startswith("C12.")]:
+            rep.floors["C16.R13/" + k_] = rep.floors.pop(k_)
     rep.rule("C16.R12", "the implicit default store and set_store('local') without directories use the same default directories")
     n12 = default_dirs_agree(ctx, v, "C16.R12")
     rep.floor("C16.R12", n12, 2)
